@@ -114,10 +114,11 @@ class Gen:
         import datetime
         d = datetime.datetime.fromtimestamp(base, datetime.timezone.utc)
         if r.random() < 0.1:
-            y = r.choice([1000, 1970, 2000, 9999])
-            # 29 February does not exist in 1000, 1970 and 9999: use the 28th (same random draws as before)
+            y = r.choice([1000, 1970, 2000, 9999, 999, 1])
+            # 29 February does not exist in 1000, 1970 and 9999: use the 28th
             d = d.replace(year=y, day=28) if (d.month, d.day) == (2, 29) else d.replace(year=y)
-        return d.strftime("%Y-%m-%dT%H:%M:%S") + r.choice(FRACS) + "Z"
+        # (strftime does not zero-pad years below 1000)
+        return "%04d" % d.year + d.strftime("-%m-%dT%H:%M:%S") + r.choice(FRACS) + "Z"
 
     def string(self, safe=False):
         return self.rng.choice(SAFE_STRINGS if safe else STRINGS)
@@ -134,7 +135,7 @@ class Gen:
 
     def number(self, mn, mx):
         r = self.rng
-        cands = [0.0, 1.5, -1.25, 12.345678, 89.999, -179.5, 1e-7, 123456.789, 5.0, 1e21, 0.1]
+        cands = [0.0, 1.5, -1.25, 12.345678, 89.999, -179.5, 1e-7, 123456.789, 5.0, 1e21, 0.1, -0.0, 7.0, 1e16, 0]
         if mn is not None:
             cands += [float(mn), mn + 0.5]
         if mx is not None:
@@ -422,7 +423,8 @@ class Gen:
 # ---------------------------------------------------------------- corruption
 
 def junk_values():
-    return [None, True, False, 0, 1, -1, 2 ** 70, 1.5, "", "str", [], ["a"], [1, None], {}, {"a": 1}, [[]], {"a": {"b": []}}]
+    return [None, True, False, 0, 1, -1, 2 ** 70, 1.5, "", "str", [], ["a"], [1, None], {}, {"a": 1}, [[]], {"a": {"b": []}},
+            -0.0, 7.0, 10 ** 21, 10 ** 400, "0", " ", "\u007f"]
 
 
 def corruptions(gen, cid, o):
@@ -449,7 +451,8 @@ def corruptions(gen, cid, o):
         x[s["name"]] = r.choice(junk_values())
         out.append(("wrong-kind", s["name"], x))
     x = dict(o)
-    x[r.choice(["foo", "x_custom", "Xbad", "extra_prop"])] = r.choice(["v", 1, None, []])
+    x[r.choice(["foo", "x_custom", "Xbad", "extra_prop", "x__two__underscores", "x-hy-phen", "spec_version", "pattern_version",
+                "object_refs", "x_" + "a" * 250])] = r.choice(["v", 1, None, [], "2.1"])
     out.append(("unknown-property", None, x))
     for s in present:
         k = s["kind"]
@@ -460,6 +463,10 @@ def corruptions(gen, cid, o):
             y = dict(o)
             y[s["name"]] = r.choice([True, False])
             out.append(("bool-for-int", s["name"], y))
+            # a float where an integer is required: integer-valued, fractional, beyond 2^53
+            y = dict(o)
+            y[s["name"]] = r.choice([7.0, 7.5, -0.0, 1e16, 2.0 ** 53 + 2])
+            out.append(("float-for-int", s["name"], y))
         if t == "int" and (k["min"] is not None or k["max"] is not None):
             x[s["name"]] = (k["min"] - 1) if k["min"] is not None and r.random() < 0.5 or k["max"] is None else k["max"] + 1
             out.append(("out-of-range", s["name"], x))
@@ -517,6 +524,11 @@ def corruptions(gen, cid, o):
         elif t == "dict" and r.random() < 0.5:
             x[s["name"]] = r.choice([{"a": 1}, {"bad key": 1}, {"k" * 300: 1}, {"key\n": 1}, {}, "notdict", 5])
             out.append(("bad-dict", s["name"], x))
+        elif t == "dict" and r.random() < 0.5:
+            # key lengths on both sides of the bounds (2.0: 3..256, 2.1: 1..250)
+            n = r.choice([1, 2, 3, 250, 251, 255, 256, 257])
+            x[s["name"]] = {"k" * n: "v"}
+            out.append(("dict-key-length", s["name"], x))
         elif t == "dict":
             # the keys are fine; a value carries a null or an empty list (at some depth)
             x[s["name"]] = r.choice([{"key_a": None}, {"key_a": []}, {"key_a": "v", "key_b": [None]}, {"key_a": {"n": None}},
@@ -527,6 +539,46 @@ def corruptions(gen, cid, o):
                                       "!!!!", "aGVs\tbG8=", "aGVsbG8= ", " aGVsbG8=", "aGVsbG8==", "aGVsbA=", "aGVsbG9=",
                                       "aGVs-G8_", "YQ", "YQ=", "\u00e9GVsbG8="])
             out.append(("bad-binary", s["name"], x))
+    r.shuffle(out)
+    return out
+
+
+# ------------------------------------------------------- sizes and depths (valid shapes)
+
+SIZES = [1, 2, 9, 10, 11, 63, 64, 65, 100, 101, 255, 256]
+
+
+def size_variations(gen, cid, o):
+    """The object with ONE property at an unusual size: a list of N elements, a string of length 0 / 1 / 255 / 256, a
+    dictionary whose key has a bound length or whose value is nested N deep.  All are legal shapes."""
+    r = gen.rng
+    c = gen.classes[cid]
+    out = []
+    for s in c["slots"]:
+        k, name = s["kind"], s["name"]
+        if k["k"] == "list" and k["of"]["k"] in ("string", "openvocab") and name != "selectors":
+            n = r.choice(SIZES)
+            x = dict(o)
+            x[name] = ["item-%03d" % i for i in range(n)]
+            out.append(("list-of-%d" % n, name, x))
+        elif k["k"] == "string" and not s["required"] and name in o:
+            n = r.choice([0, 1, 255, 256])
+            x = dict(o)
+            x[name] = "s" * n
+            out.append(("string-of-%d" % n, name, x))
+        elif k["k"] == "dict":
+            x = dict(o)
+            if r.random() < 0.5:
+                n = 3 if k["ver"] == "2.0" and r.random() < 0.5 else (256 if k["ver"] == "2.0" else r.choice([1, 250]))
+                x[name] = {"k" * n: "v"}
+                out.append(("dict-key-of-%d" % n, name, x))
+            else:
+                n = r.choice([1, 2, 10, 64])
+                v = "leaf"
+                for _ in range(n):
+                    v = {"lvl": v}
+                x[name] = {"key_a": v}
+                out.append(("dict-depth-%d" % n, name, x))
     r.shuffle(out)
     return out
 
@@ -589,6 +641,19 @@ def coconstraint_corruptions(gen, cid, o):
                 x[d] = val(d)
             if not any(slots.get(p, {}).get("required") for p in ps):
                 out.append(("co-constraint", "dependent-without:" + ",".join(ps), x))
+                # the same with a falsy-but-present dependent value (0, 0.0, "", false): a guard written as a
+                # truthiness test would not see it
+                for dd in ds:
+                    if dd not in slots:
+                        continue
+                    falsy = {"int": [0], "float": [0.0, 0], "string": [""], "bool": [False]}.get(slots[dd]["kind"]["k"], [])
+                    for fv in falsy:
+                        kd = slots[dd]["kind"]
+                        if kd["k"] in ("int", "float") and ((kd.get("min") is not None and kd["min"] > 0) or (kd.get("max") is not None and kd["max"] < 0)):
+                            continue
+                        y = dict(x)
+                        y[dd] = fv
+                        out.append(("co-constraint", "dependent-falsy-without:" + ",".join(ps) + ":" + dd, y))
         except (ValueError, IndexError, KeyError):
             pass
     # ordered timestamps: `a = self.get('p')` ... `(b < a)` / `(b <= a)`
@@ -645,6 +710,10 @@ def coconstraint_corruptions(gen, cid, o):
         x["precision"] = 10.0
         x["country"] = "us"
         out.append(("co-constraint", "precision-without-coordinates", x))
+        for pv in (0.0, 0):
+            y = dict(x)
+            y["precision"] = pv
+            out.append(("co-constraint", "zero-precision-without-coordinates", y))
     if n == "EmailMessage":
         x = dict(o)
         x["is_multipart"] = True
